@@ -349,7 +349,14 @@ class C05(Check):
                 continue
             if kind in ("write", "read_begin", "close", "connect"):
                 if actor not in in_call:
-                    continue  # not a client-level operation (initial connect, final close)
+                    # a transport operation outside request()/reconnect(): harmless while nobody owns the client
+                    # (initial connect, final close), a violation inside somebody's exchange (path that bypasses the lock)
+                    if owner is not None and owner != actor:
+                        a_cls = "TP" if actor == "TP" else "caller"
+                        violation(res, "C05/exclusion", f"C05/exclusion:{kind}-by-{a_cls}-outside-request-during-exchange",
+                                  f"t={t:.4f}: task {actor} issued transport {kind} (not through request()) while the exchange of task {owner} was in progress")
+                        break
+                    continue
                 if owner is None:
                     owner = actor
                 elif owner != actor:
